@@ -18,8 +18,6 @@ import CylcModel.Sched3QT
 namespace CylcModel.Sched3QR
 open CylcModel.Sched3QT
 
-abbrev Key := Int × String
-
 structure GraphR where
   g : Graph
   execLong : List String := []          -- task names with non-zero `execution retry delays`
@@ -28,7 +26,7 @@ structure GraphR where
 
 structure StateR where
   s : State
-  hold : List Key := []                 -- proxies whose pending retry timer is in the future
+  hold : List (Int × String) := []                 -- proxies whose pending retry timer is in the future
   deriving Inhabited
 
 inductive OpR where
@@ -38,7 +36,7 @@ inductive OpR where
 
 /-- the queue-if-ready sweep over waiting, unqueued, released proxies: the retry xtrigger of a proxy is satisfied
 unless its timer is in the future -/
-def sweepQueueR (hold : List Key) (s : State) : State :=
+def sweepQueueR (hold : List (Int × String)) (s : State) : State :=
   s.pool.foldl (fun st x => match st.get? x.pt x.name with
     | some y =>
       if y.status == .waiting && !y.queued && !y.runahead then
@@ -48,7 +46,7 @@ def sweepQueueR (hold : List Key) (s : State) : State :=
     | none => st) s
 
 /-- one iteration of `Scheduler._main_loop` (`Sched3QT.mainLoop` with the clock-aware sweep) -/
-def mainLoopR (g : Graph) (hold : List Key) (s : State) : State :=
+def mainLoopR (g : Graph) (hold : List (Int × String)) (s : State) : State :=
   if s.stop.isSome then s else
   let s := computeRunahead g s
   let s := (releaseRunahead g s).1
@@ -76,7 +74,7 @@ def newlyLong (gr : GraphR) (s : State) (y : Proxy) : Bool :=
 
 /-- the pending future retry timers after an operation `s -> s'`: those that were pending and whose proxy still
 waits on its retry xtrigger, plus the ones lined up by the operation -/
-def holdAfter (gr : GraphR) (hold : List Key) (s s' : State) : List Key :=
+def holdAfter (gr : GraphR) (hold : List (Int × String)) (s s' : State) : List (Int × String) :=
   (s'.pool.filter fun y => y.retryWait && (hold.contains (y.pt, y.name) || newlyLong gr s y)).map fun y => (y.pt, y.name)
 
 def stepR (gr : GraphR) (sr : StateR) (op : OpR) : StateR :=
